@@ -25,7 +25,8 @@ RULE = ("Hypothesis draws a creation configuration and a reopening configuration
         "snapshot of the PARENT directory (paths, sizes, hashes, directories) is identical. "
         "Non-trivial = the two configurations differ in exactly one field or only in encoding, or "
         "the key set is not exact; distinct key = (which fields differ, encodings, key-set variant, "
-        "path state, populated, yaml removed).")
+        "path state, populated, yaml removed)."
+        ' The three data directories may be symbolic links to directories elsewhere; the previous store at the same path may have had (and been reopened with) the configuration used for the reopen.')
 ASSUMPTIONS = ["single process; the store path's parent is private to the case"]
 
 GOOD_ALGOS = sorted(common.STORE_ALGOS)
